@@ -7,6 +7,7 @@
 #include "prt_common.h"
 #include "vol_common.h"
 #include "ref/ref_clm.h"
+#include "ref/ref_lzh.h"
 #include "Archive/VolFile.h"
 #include "Archive/ClmFile.h"
 #include "Bitmap/BitmapFile.h"
@@ -61,7 +62,14 @@ void sc_vol(Tape& t, int variant, Emit& e) {
 	volgen::root();
 	unsigned n = unsigned(t.below(6));
 	std::vector<std::pair<std::string, std::vector<uint8_t>>> fs;
-	for (unsigned i = 0; i < n; ++i) { std::string nm = volgen::gen_name(t, 12); for (auto& f : fs) if (refvol::ieq(f.first, nm)) nm += char('0' + i); fs.push_back({nm, t.expand(t.below(200))}); }
+	for (unsigned i = 0; i < n; ++i) {
+		std::string nm = volgen::gen_name(t, 12);
+		// half of the later names extend an earlier one (possibly in another letter case): prefix-related names are where a sort
+		// that is not a strict weak order, or not total on them, lets the listing order leak into the archive
+		if (i && t.flag()) { nm = volgen::case_variant(fs[t.below(fs.size())].first, t.u8()) + t.pick<std::string>({".bak", "x", "_", ".txt", "0", " "}); }
+		for (auto& f : fs) if (refvol::ieq(f.first, nm)) nm += char('0' + i);
+		fs.push_back({nm, t.expand(t.below(200))});
+	}
 	volgen::mkdirs("%in/"); volgen::mkdirs("%o/");
 	std::vector<std::string> paths;
 	for (auto& f : fs) { write_file("%in/" + f.first, f.second); paths.push_back(variant ? "./%in/" + f.first : "%in/" + f.first); }
@@ -82,6 +90,7 @@ void sc_clm(Tape& t, int variant, Emit& e) {
 	volgen::mkdirs("%in/"); volgen::mkdirs("%o/");
 	for (unsigned i = 0; i < n; ++i) {
 		std::string nm = std::string(1, char('a' + i)) + std::string(t.below(7), char('A' + i));
+		if (i && t.flag() && names.back().size() < 8) { nm = volgen::case_variant(names.back(), t.u8()) + char('a' + i); }   // extends the previous name (prefix-related, other case)
 		refclm::WavSpec w; w.fmt = f; w.fmt18 = t.flag(); w.data = t.expand(t.below(120));
 		if (t.flag()) { refclm::Chunk c; memcpy(c.tag, "LIST", 5); c.body = t.bytes(2 * t.below(5)); w.afterData.push_back(c); }
 		if (t.flag()) { refclm::Chunk c; memcpy(c.tag, "fact", 5); c.body = {1, 2, 3, 4}; w.beforeFmt.push_back(c); }
@@ -135,11 +144,36 @@ void sc_prt(Tape& t, int, Emit& e) {
 	Stream::DynamicMemoryWriter w; a.Write(w); e.blob("art.written", bytes_of(w)); e.headerFromLocal = true; e.container = !p.anims.empty() || !p.images.empty();
 	if (t.flag()) { ArtFile empty{}; Stream::DynamicMemoryWriter w2; empty.Write(w2); e.blob("art.empty_written", bytes_of(w2)); }
 }
+// LZH member of a reference-encoded volume whose first matches reach back before the start of the output, i.e. into the part of the
+// decoder's window nothing has written yet (it must read as the format's space fill, whatever the memory held before)
+void sc_lzh(Tape& t, int, Emit& e) {
+	volgen::root(); volgen::mkdirs("%o/");
+	std::vector<reflzh::Token> toks; unsigned produced = 0;
+	unsigned n = 1 + unsigned(t.below(40));
+	for (unsigned i = 0; i < n; ++i) {
+		if (t.below(3) == 0) { toks.push_back({false, t.u8(), 0, 0}); ++produced; continue; }
+		unsigned len = 3 + unsigned(t.below(58));
+		unsigned dist;
+		switch (t.below(4)) { case 0: dist = produced + 1 + unsigned(t.below(60)); break;            // window indices 4036..4095 at the start
+			case 1: dist = produced + 1 + unsigned(t.below(4096 - std::min(produced, 4000u))); break;     // anywhere before the start
+			case 2: dist = 4096; break;
+			default: dist = 1 + unsigned(t.below(std::max(1u, produced))); break; }
+		if (dist > 4096) dist = 4096; if (dist < 1) dist = 1;
+		toks.push_back({true, 0, len, dist}); produced += len;
+	}
+	std::vector<uint8_t> plain; std::vector<uint8_t> packed = reflzh::encode(toks, plain);
+	refvol::Member m; m.name = "p.bin"; m.payload = packed; m.comp = refvol::CompLZH; m.sizeField = uint32_t(reflzh::decode(packed).out.size());
+	std::string vp = "%o/lzh.vol", xp = "%o/lzh.out"; write_file(vp, refvol::encode({m})); remove(xp.c_str());
+	{ Archive::VolFile v(vp); v.ExtractFile(0, xp); e.blob("lzh.extracted", slurp(xp)); }
+	{ Archive::HuffLZ dec(Archive::BitStreamReader(packed.data(), packed.size())); std::vector<uint8_t> out; char buf[97]; for (;;) { size_t k = dec.GetData(buf, sizeof buf); out.insert(out.end(), buf, buf + k); if (k < sizeof buf || out.size() > 400000) break; } e.blob("lzh.getdata", out); }
+	e.headerFromLocal = true; e.container = produced > 0;
+	remove(vp.c_str()); remove(xp.c_str());
+}
 void scenario(Tape& t, int variant, Emit& e) {
-	unsigned kind = unsigned(t.below(6));
+	unsigned kind = unsigned(t.below(7));
 	e.num("kind", kind);
 	try {
-		switch (kind) { case 0: sc_vol(t, variant, e); break; case 1: sc_clm(t, variant, e); break; case 2: sc_map(t, variant, e); break; case 3: sc_bmp(t, variant, e); break; case 4: sc_tileset(t, variant, e); break; default: sc_prt(t, variant, e); break; }
+		switch (kind) { case 0: sc_vol(t, variant, e); break; case 1: sc_clm(t, variant, e); break; case 2: sc_map(t, variant, e); break; case 3: sc_bmp(t, variant, e); break; case 4: sc_tileset(t, variant, e); break; case 6: sc_lzh(t, variant, e); break; default: sc_prt(t, variant, e); break; }
 	} catch (const Violation&) { throw; }
 	catch (const std::exception&) { e.text("outcome", "std::exception"); }
 }
@@ -189,7 +223,7 @@ void run_case(Tape& t, Stats& st) {
 	std::string sa(a.begin(), a.end()), sb(b.begin(), b.end());
 	V_CHECK(sa == sb, "emission differs between the zero-poisoned and the pattern-poisoned process at " << first_line_diff(sa, sb) << " - output or parsed value depends on uninitialised memory, addresses, listing order or path spelling");
 	V_CHECK(sa == e.s, "emission of the in-process (ASan) run differs from the child processes at " << first_line_diff(sa, e.s));
-	unsigned kind = 0; { Tape t3(t.data(), t.size()); kind = unsigned(t3.below(6)); }
+	unsigned kind = 0; { Tape t3(t.data(), t.size()); kind = unsigned(t3.below(7)); }
 	st.cls("scenario_kind:" + std::to_string(kind));
 	if (e.s.find("outcome=std::exception") != std::string::npos) st.cls("scenario_threw_consistently");
 	if (e.headerFromLocal && e.container) st.nt(fnv1a(e.s.data(), e.s.size()));
@@ -198,7 +232,7 @@ void run_case(Tape& t, Stats& st) {
 
 void run_sweep(Stats& st) {
 	// directed: every scenario kind with a handful of fixed tapes (incl. the default-constructed map)
-	for (unsigned kind = 0; kind < 6; ++kind) for (unsigned v = 0; v < 12; ++v) {
+	for (unsigned kind = 0; kind < 7; ++kind) for (unsigned v = 0; v < 12; ++v) {
 		if (!sw("kind", kind, v)) continue;
 		std::vector<uint8_t> tp(300); for (size_t i = 0; i < tp.size(); ++i) tp[i] = uint8_t(i * (31 + 2 * v) + kind * 13 + v);
 		tp[0] = uint8_t(kind); if (kind == 2) tp[1] = uint8_t(v % 4);
